@@ -101,6 +101,18 @@ def run(chk):
         fi = P.fn(q)
         c = "%s:%s" % (fi.module.relpath, fi.name)
         summaries[q] = window_summary(chk, fi, c)
+        # the zero-frequency bin is recognised by `frequencies[0] == 0`, nothing else (log10(0) must never be formed)
+        fpar = fi.params[0]
+        zt = [n for n in ast.walk(fi.node) if isinstance(n, ast.If) and isinstance(n.test, ast.Compare) and len(n.test.ops) == 1 and
+              any(isinstance(x, ast.Subscript) and isinstance(x.value, ast.Name) and x.value.id == fpar and isinstance(x.slice, ast.Constant) and
+                  x.slice.value == 0 for x in [n.test.left] + n.test.comparators)]
+        for n in zt[:1]:
+            other = n.test.comparators[0] if isinstance(n.test.left, ast.Subscript) else n.test.left
+            okz = isinstance(n.test.ops[0], ast.Eq) and isinstance(other, ast.Constant) and other.value == 0 and not isinstance(other.value, bool)
+            drops = any(isinstance(x, ast.Subscript) and isinstance(x.slice, ast.Slice) and isinstance(x.slice.lower, ast.Constant) and x.slice.lower.value == 1
+                        for st_ in n.body for x in ast.walk(st_))
+            chk.ob("R-KO-ZERO", c + "{zero-bin test}", "the bin is dropped exactly when frequencies[0] == 0", okz and drops,
+                   derived="%s; drops [1:] on that branch: %s" % (" ".join(ast.unparse(n.test).split()), drops), loc=fi.loc(n), stmt=norm_stmt(n.test))
         for zero_bin in (True, False):
             def setup(I, zero_bin=zero_bin):
                 I.branch_oracle = lambda fr, node: (zero_bin if (fr.fi.qualname == q and isinstance(node.test, ast.Compare) and
@@ -261,6 +273,20 @@ def bandwidth_rules(chk):
             ok = bool(subs) and all("fft:fft" not in x.base.tags and "attr:_smooth_fa_freqs" in x.base.tags for x in subs)
             chk.ob("R-BW", c + ".%s[source]" % which, "read from the smoothing-frequency array", ok,
                    derived="%d read(s) at the %s index" % (len(subs), which), loc=subs[0].loc if subs else r.fi.loc())
+    # the threshold itself: a fraction of the maximum in the bandwidth helpers (max * ratio, ratio < 1), the maximum divided by the ratio in
+    # the significant-range helper (max / ratio, ratio > 1)
+    for q_, expo_ in (("eqsig.im.calc_bandwidth_freqs", 1), ("eqsig.im.calc_bandwidth_f_min", 1), ("eqsig.im.calc_bandwidth_f_max", 1),
+                      ("eqsig.fns.frequency.get_sig_array_indexes_range", -1)):
+        f_ = P.fn(q_)
+        for n in ast.walk(f_.node):
+            if isinstance(n, ast.Assign) and len(n.targets) == 1 and isinstance(n.value, ast.BinOp):
+                p_ = Normaliser().poly(n.value)
+                if p_.is_monomial() and "ratio" in p_.atoms() and len(p_.atoms()) == 2:
+                    (m_, co_), = p_.t.items()
+                    d_ = dict(m_)
+                    oth = [a for a in d_ if a != "ratio"][0]
+                    chk.ob("R-BW", "%s:%s{threshold}" % (f_.module.relpath, f_.name), "threshold = maximum %s ratio" % ("*" if expo_ == 1 else "/"),
+                           co_ == 1 and d_["ratio"] == expo_ and d_[oth] == 1, derived=p_.canon(), loc=f_.loc(n), stmt=norm_stmt(n))
     ms = set(masks.values())
     chk.ob("R-BW", "calc_bandwidth_freqs~f_min~f_max~get_sig_array_indexes_range", "the sibling masks are the same strict comparison",
            len(ms) == 1 and len(masks) == 4, derived="%s" % sorted(masks.values()))
